@@ -50,7 +50,10 @@ CONSTANTS
 
 \* static attributes of the offered byte strings (bound in the MC module)
 CONSTANTS Prevs(_), Lc(_), SigOK(_), WF(_), Selects(_, _), SubType(_)
-CONSTANT Responses   \* what a receiver may answer: subset of {"ok","fail","incomplete","fatal"}
+CONSTANT Responses   \* what a receiver may answer: subset of {"ok","fail","incomplete","fatal","failctx"}; two more members switch
+                     \* environment behaviour on: "readfail" (the job-shelf read of an attempt's notifyNow fails, e.g. the lock could not be
+                     \* obtained in time) and "failctx" (the receiver fails with an error ending in jsonld.ContextURLNotAllowedErr: Run()
+                     \* does not retry such a job at start-up, but it stays on the shelf)
 
 None == "none"
 SymDiff(S, T) == (S \ T) \cup (T \ S)
@@ -80,7 +83,8 @@ view == <<disk, mem, lock, tmu, pc, arg, wbuf, todo, fails, crashes, corrupts, d
 Log(e) == hist' = IF Hist THEN Append(hist, e) ELSE hist
 
 EmptyDisk == [txs |-> {}, pay |-> {}, xor |-> {}, iblt |-> Zero, n |-> 0, lcHigh |-> 0, head |-> None,
-              jobs |-> {}, retries |-> [j \in Subs \X Tx |-> 0]]
+              jobs |-> {}, retries |-> [j \in Subs \X Tx |-> 0],
+              ctx |-> {}]     \* jobs whose last recorded error is "context not on the remoteallowlist"
 
 Init ==
     /\ disk = EmptyDisk
@@ -237,7 +241,7 @@ AfterCommit(p) ==
 (***************************************************************************)
 \* ReadShelf(job) + receiver(event)
 NotifyCall(k, r) ==
-    /\ k \in tasks /\ k.phase = "ready" /\ lock = None
+    /\ k \in tasks /\ k.phase = "ready" /\ lock = None /\ r # "readfail"
     /\ IF <<k.s, k.t>> \notin disk.jobs
        THEN /\ tasks' = tasks \ {k} /\ UNCHANGED <<calls, recalled>>  \* "no longer exists so done"
             /\ Log([a |-> "NotifyCall", s |-> k.s, t |-> k.t, res |-> "gone"])
@@ -247,15 +251,28 @@ NotifyCall(k, r) ==
             /\ Log([a |-> "NotifyCall", s |-> k.s, t |-> k.t, res |-> r])
     /\ UNCHANGED <<disk, mem, lock, tmu, pc, arg, wbuf, todo, fails, crashes, corrupts, dups, done, corrupted>>
 
+\* notifyNow's ReadShelf of the job fails on the FIRST attempt of an event (after-commit Notify / start-up Run): the receiver is not
+\* called, nothing is written; Notify()/Run() hand the event to the retry goroutine, so the task stays alive with one attempt less
+\* (a read error INSIDE the retry goroutine is retry.Unrecoverable and ends that goroutine until the next start: not modelled, the
+\* property's quantifier does not range over storage faults; this action is the lock-timeout schedule of the first attempt)
+NotifyReadFail(k) ==
+    /\ "readfail" \in Responses
+    /\ k \in tasks /\ k.phase = "ready" /\ lock = None
+    /\ k.att = Budget - 1 /\ k.att > 0 /\ <<k.s, k.t>> \in disk.jobs /\ disk.retries[<<k.s, k.t>>] = 0
+    /\ tasks' = (tasks \ {k}) \cup {[k EXCEPT !.att = @ - 1]}
+    /\ Log([a |-> "NotifyReadFail", s |-> k.s, t |-> k.t])
+    /\ UNCHANGED <<disk, mem, lock, tmu, pc, arg, wbuf, todo, fails, crashes, corrupts, dups, calls, recalled, done, corrupted>>
+
 \* Finished (delete job) | write back the incremented retry counter; schedule the retry goroutine
 NotifyMark(k) ==
     /\ k \in tasks /\ k.phase = "called" /\ lock = None
     /\ LET j == <<k.s, k.t>> IN
        IF k.res = "ok"
-       THEN /\ disk' = [disk EXCEPT !.jobs = @ \ {j}]
+       THEN /\ disk' = [disk EXCEPT !.jobs = @ \ {j}, !.ctx = @ \ {j}]
             /\ done' = done \cup {j}
             /\ tasks' = tasks \ {k}
-       ELSE /\ disk' = [disk EXCEPT !.retries[j] = IF k.res = "fatal" THEN Budget + 1 ELSE @ + 1]
+       ELSE /\ disk' = [disk EXCEPT !.retries[j] = IF k.res = "fatal" THEN Budget + 1 ELSE @ + 1,
+                                    !.ctx = IF k.res = "failctx" THEN @ \cup {j} ELSE @ \ {j}]
             /\ done' = done
             /\ tasks' = IF k.res = "fatal" \/ k.att = 0
                         THEN tasks \ {k}
@@ -297,7 +314,7 @@ Crash ==
     /\ mem' = Load(disk)                                    \* NewState + Configure -> loadState
     /\ lock' = None /\ tmu' = None
     /\ pc' = [p \in Procs |-> "idle"]
-    /\ tasks' = {[s |-> j[1], t |-> j[2], att |-> ReplayAtt(j), phase |-> "ready", res |-> "none"] : j \in disk.jobs}
+    /\ tasks' = {[s |-> j[1], t |-> j[2], att |-> ReplayAtt(j), phase |-> "ready", res |-> "none"] : j \in disk.jobs \ disk.ctx}
     /\ Log([a |-> "Crash"])
     /\ UNCHANGED <<disk, arg, wbuf, todo, fails, corrupts, dups, calls, recalled, done, corrupted>>
 
@@ -332,7 +349,7 @@ Next ==
     \/ \E p \in Procs, t \in Tx, pl \in PayloadKinds : Offer(p, t, pl)
     \/ \E p \in Procs, t \in Tx : ParseReject(p, t)
     \/ \E p \in Procs : ReadVerify(p) \/ LockWrite(p) \/ (\E g \in LateStages : LockWriteLate(p, g)) \/ Commit(p) \/ Rollback(p) \/ OnRollback(p) \/ AfterCommit(p)
-    \/ \E k \in tasks : (\E r \in Responses : NotifyCall(k, r)) \/ NotifyMark(k)
+    \/ \E k \in tasks : (\E r \in Responses : NotifyCall(k, r)) \/ NotifyMark(k) \/ NotifyReadFail(k)
     \/ \E t \in Tx : WritePayload(t)
     \/ Crash
     \/ \E pg \in Pages : (\E g \in Tx : Corrupt(pg, g)) \/ CheckPage(pg)
